@@ -12,7 +12,7 @@ struct Piece { int len = 1, pause = 0; };
 struct Fault { int fn = 0, k = 0, err = 0; };
 struct TaskCase {
   int dir = 0, handler = 0, buf_size = 64, win_off = 0, win_len = 64, used0 = 0, ev_flags = 0, after_every_read = 0, timeout_ms = 0,
-      start_ex_direct = 0, prequeue = 0, end = 1, cb_policy = 0, rearm = 0, sndbuf = 0, close_on_destroy = 0;
+      start_ex_direct = 0, prequeue = 0, end = 1, cb_policy = 0, rearm = 0, sndbuf = 0, close_on_destroy = 0, bad_window = 0;
   std::vector<Piece> pieces;
   Bytes plan;
   std::vector<Fault> faults;
@@ -20,7 +20,7 @@ struct TaskCase {
     Writer w;
     w.i("dir", dir).i("handler", handler).i("buf_size", buf_size).i("win_off", win_off).i("win_len", win_len).i("used0", used0)
         .i("ev_flags", ev_flags).i("after_every_read", after_every_read).i("timeout_ms", timeout_ms).i("start_ex_direct", start_ex_direct)
-        .i("prequeue", prequeue).i("end", end).i("cb_policy", cb_policy).i("rearm", rearm).i("sndbuf", sndbuf).i("close_on_destroy", close_on_destroy);
+        .i("prequeue", prequeue).i("end", end).i("cb_policy", cb_policy).i("rearm", rearm).i("sndbuf", sndbuf).i("close_on_destroy", close_on_destroy).i("bad_window", bad_window);
     std::vector<long long> v;
     for (auto &p : pieces) { v.push_back(p.len); v.push_back(p.pause); }
     w.iv("pieces", v);
@@ -36,7 +36,7 @@ struct TaskCase {
     c.dir = (int)r.i("dir"); c.handler = (int)r.i("handler"); c.buf_size = (int)r.i("buf_size", 64); c.win_off = (int)r.i("win_off");
     c.win_len = (int)r.i("win_len", 64); c.used0 = (int)r.i("used0"); c.ev_flags = (int)r.i("ev_flags"); c.after_every_read = (int)r.i("after_every_read");
     c.timeout_ms = (int)r.i("timeout_ms"); c.start_ex_direct = (int)r.i("start_ex_direct"); c.prequeue = (int)r.i("prequeue"); c.end = (int)r.i("end", 1);
-    c.cb_policy = (int)r.i("cb_policy"); c.rearm = (int)r.i("rearm"); c.sndbuf = (int)r.i("sndbuf"); c.close_on_destroy = (int)r.i("close_on_destroy");
+    c.cb_policy = (int)r.i("cb_policy"); c.rearm = (int)r.i("rearm"); c.sndbuf = (int)r.i("sndbuf"); c.close_on_destroy = (int)r.i("close_on_destroy"); c.bad_window = (int)r.i("bad_window");
     auto v = r.iv("pieces");
     for (size_t j = 0; j + 2 <= v.size(); j += 2) c.pieces.push_back(Piece{(int)v[j], (int)v[j + 1]});
     c.plan = r.b("plan");
@@ -61,6 +61,16 @@ static Verdict evaluate(const TaskCase &c, const c16_out &o) {
                                                          "tp_task_enable(1) had not been called yet (header: such return codes stop callbacks until then)");
   PBT_REQUIRE(!o.ident_open_after_destroy, "TP_TASK_F_CLOSE_ON_DESTROY: the task's descriptor was still open after tp_task_destroy() had returned");
   if (o.paused) PBT_REQUIRE(o.resume_rc == 0 || inj > 0, "tp_task_enable(1) on the paused task failed with " << o.resume_rc);
+  if (c.bad_window) {
+    // outer guards first (a transfer into the bad window lands in them)
+    for (int i = 0; i < 32; i++) PBT_REQUIRE(o.buf_image[i] == 0xfd && o.buf_image[32 + c.buf_size + i] == 0xfd, "bytes outside the buffer were modified (window offset " << c.win_off << " + " << c.win_len << " exceeds the buffer size " << c.buf_size << ")");
+    PBT_REQUIRE(o.start_rc == EINVAL, "tp_task_start_ex() accepted (rc " << o.start_rc << ") a buffer window [" << c.win_off << ", " << c.win_off + c.win_len << ") that reaches past the buffer size " << c.buf_size);
+    PBT_REQUIRE(o.ncb == 0, "callback made for a refused start");
+    PBT_REQUIRE(o.peer_received == 0, "a refused send task emitted " << o.peer_received << " byte(s)");
+    label("window_past_buffer_refused");
+    nontrivial_cur();
+    return Verdict::pass();
+  }
   if (o.start_rc != 0) {
     PBT_REQUIRE(inj > 0 || c.start_ex_direct, "task start failed with " << o.start_rc << " without an injected fault");
     PBT_REQUIRE(o.ncb == 0 || c.start_ex_direct, "callbacks after a failed start");
@@ -190,7 +200,10 @@ static Verdict run_case(const TaskCase &c) {
   s->dir = (uint8_t)c.dir; s->handler = (uint8_t)c.handler;
   s->buf_size = (uint16_t)std::max(1, std::min(4096, c.buf_size));
   s->win_off = (uint16_t)c.win_off; s->win_len = (uint16_t)c.win_len; s->used0 = (uint16_t)c.used0;
-  PBT_REQUIRE(c.win_off + c.win_len <= c.buf_size && c.win_len >= 1 && c.used0 <= c.buf_size, "harness: window outside the documented precondition");
+  if (c.bad_window)  // window reaching past the buffer: only the direct first transfer validates it, and must refuse it (EINVAL) before any I/O
+    PBT_REQUIRE(c.start_ex_direct && c.handler == 0 && c.win_len >= 1 && c.win_off + c.win_len > c.buf_size && c.win_off + c.win_len <= c.buf_size + 32, "harness: bad-window scenario outside its own envelope");
+  else
+    PBT_REQUIRE(c.win_off + c.win_len <= c.buf_size && c.win_len >= 1 && c.used0 <= c.buf_size, "harness: window outside the documented precondition");
   s->ev_flags = (uint8_t)c.ev_flags; s->after_every_read = (uint8_t)c.after_every_read; s->timeout_ms = (uint16_t)c.timeout_ms;
   s->start_ex_direct = (uint8_t)c.start_ex_direct; s->prequeue = (uint8_t)c.prequeue; s->end = (uint8_t)c.end;
   s->cb_policy = (uint8_t)c.cb_policy; s->rearm = (uint8_t)c.rearm; s->sndbuf = (uint32_t)c.sndbuf; s->close_on_destroy = (uint8_t)c.close_on_destroy;
@@ -242,6 +255,15 @@ static rc::Gen<TaskCase> genCase() {
     // the task owns a dup() of the socket and closes it on destroy; the harness' descriptor keeps the open file description alive
     c.close_on_destroy = (c.handler == 0) ? *rc::gen::weightedElement<int>({{3, 0}, {1, 1}}) : 0;
     c.plan = *bytes_upto(12);
+    if (c.handler == 0 && *range<int>(0, 19) == 0) {
+      // a window that reaches past the end of the buffer (also one that starts past it): the direct first transfer must refuse it
+      c.bad_window = 1; c.start_ex_direct = 1; c.cb_policy = 0; c.rearm = 0; c.close_on_destroy = 0;
+      if (c.dir == 0 && c.prequeue == 0) c.prequeue = 1;
+      c.win_len = *range<int>(1, 8);
+      c.win_off = *range<int>(c.buf_size - c.win_len + 1, c.buf_size + 24);
+      c.used0 = 0;
+      return c;
+    }
     if (*range<int>(0, 5) == 0)
       c.faults.push_back(Fault{*rc::gen::element<int>(F_EPOLL_CTL, F_EPOLL_CTL, F_TIMERFD_CREATE, F_TIMERFD_SETTIME), *range<int>(1, 4), *rc::gen::element<int>(ENOMEM, EMFILE, EINVAL)});
     return c;
